@@ -116,10 +116,19 @@ def roundtrip(value, indent=None):
     args = [value] if indent is None else [value, indent]
     text = SCRIPT_FUNCTIONS['jsonStringify'](list(args), None)
     floats = []
+    unsorted = []
+
+    def pairs(items):
+        keys = [k for k, _ in items]
+        if keys != sorted(keys):
+            unsorted.append(keys)
+        return dict(items)
     try:
-        std = json.loads(text, parse_float=lambda lit: (floats.append(lit), float(lit))[1])
+        std = json.loads(text, parse_float=lambda lit: (floats.append(lit), float(lit))[1], object_pairs_hook=pairs)
     except (ValueError, TypeError) as exc:
         return {'clause': 'jsonStringify output is not valid JSON', 'value': repr(value)[:200], 'text': repr(text)[:200], 'error': str(exc)[:80]}
+    if unsorted:
+        return {'clause': 'object keys are not written in sorted order', 'value': repr(value)[:200], 'text': repr(text)[:200], 'keys': unsorted[0]}
     for lit in floats:
         if re.fullmatch(r'-?\d+\.0+', lit):
             return {'clause': 'integral number written with a fraction', 'value': repr(value)[:200], 'text': repr(text)[:200], 'literal': lit}
@@ -427,7 +436,7 @@ def core_rt(ii, b, s1, indent):
         return False, bad
     return True, {{}}
 '''
-SHAPES = ["[i, a, None, b, {k: j}]", "{k: [a, i], a: {'z': b, 'y': [j, k]}}", "[[a], [[k, i]], j, {}, []]", "{a: k, k + 'x': [i * 1.0, j + 0.5, a]}"]
+SHAPES = ["{'zz': i, a: {'y': b, 'b': [j, k], 'a': None}, 'aa': 1, 'm': {'q': 1, 'c': 2}}", "[i, a, None, b, {k: j}]", "{k: [a, i], a: {'z': b, 'y': [j, k]}}", "[[a], [[k, i]], j, {}, []]", "{a: k, k + 'x': [i * 1.0, j + 0.5, a]}"]
 
 
 def plan(tier, seed, workdir):
@@ -448,7 +457,7 @@ def plan(tier, seed, workdir):
             p.add({'kind': 'lemma', 'id': f'step{k}_parse_{st["regex_name"]}', 'module': 'vf.props.c14', 'fn': 'lemma_parse_side', 'kwargs': {'index': k},
                    'timeout': 900, 'est': 60}, family='E2 parse-side step', step=st)
     timeout = 120 if tier == 'quick' else 600
-    for n, shape in enumerate(SHAPES if tier == 'thorough' else SHAPES[:2]):
+    for n, shape in enumerate(SHAPES if tier == 'thorough' else SHAPES[:3]):
         for indent in (0, 1, 2, 4) if tier == 'quick' else (0, 1, 2, 3, 4, 8):
             body = CORE.replace('{shape}', shape).replace('{{}}', '{}')
             body += hgen.harness('rt', 'ii: int, b: bool, s1: int', ['0 <= s1 < 19', '0 <= ii < 7'], core_call=f'core_rt(ii, b, s1, {indent})')
